@@ -1269,5 +1269,7 @@ fn main() {
         ctx.require_min_count("parameter-grid", "correct-length-evaluated", 100);
     }
 
+    // coverage-guided byte-level campaign (libFuzzer target `equihash_verify`, oracle inside the target)
+    ctx.run_fuzz("equihash_verify", ctx.tier.pick(500_000, 10_000_000), ctx.tier.pick(4, 16), 2048);
     ctx.finish();
 }
